@@ -156,8 +156,12 @@ CLAIMED = {
              "RwLock and sockets are outside the model; the same loop bodies are driven on the implementation through the "
              "cfg(simple_dns_verif) wrappers with empty / short / malformed / hostile datagrams against generated stores, every "
              "ingesting case through both the sync listener and the tokio listener's separate copy of the ingest code (outputs "
-             "must be identical).",
-        technique="Coq proof (composition of parser totality, store totality and the compressed round trip) + model/implementation correspondence on datagram pipelines",
+             "must be identical). A sampled subset runs on real sockets (SOCK cases): a running sync SimpleMdnsResponder is sent "
+             "header-sized and shorter datagrams under every flag pattern, random, malformed and hostile messages, and a query "
+             "whose reply exceeds a UDP datagram, over the multicast group, and must still answer a one-shot query afterwards "
+             "(this slice found F31, repaired in e051091); where the environment has no multicast these cases report NOSOCKET "
+             "and are not judged.",
+        technique="Coq proof (composition of parser totality, store totality and the compressed round trip) + model/implementation correspondence on datagram pipelines + liveness probes of a real responder thread over multicast sockets",
         ref="DESIGN.md section 6, C14"),
     "C15": dict(
         text="Kernel-checked theorems: for ANY instance description within DNS limits (instance_ok: addresses and ports in range and "
